@@ -191,3 +191,18 @@ func FindAlt(known []model.AlternativeWithCriteria, id string) *model.Alternativ
 	}
 	panic("unknown alternative " + id)
 }
+
+// RangeOf is the documented range of a criterion: the declared valuesRange if present, otherwise
+// the range observed over the given alternatives (as an if-then-else term, no forking).
+func RangeOf(c *model.Criterion, alts []model.AlternativeWithCriteria) (float64, float64) {
+	if c.ValuesRange != nil {
+		return c.ValuesRange.Min, c.ValuesRange.Max
+	}
+	mn, mx := alts[0].Criteria[c.Id], alts[0].Criteria[c.Id]
+	for i := 1; i < len(alts); i++ {
+		v := alts[i].Criteria[c.Id]
+		mn = rt.IteF(v < mn, v, mn)
+		mx = rt.IteF(v > mx, v, mx)
+	}
+	return mn, mx
+}
